@@ -731,6 +731,10 @@ func (ctx *context) handleInboundResponse(response *Response) (stateAction, *con
 
 // verifySignature verifies connection signature and returns connection.
 func (ctx *context) verifySignature(connSignature *ConnectionSignature, recipientKeys string) (*Connection, error) {
+	if connSignature == nil {
+		return nil, errors.New("missing connection signature")
+	}
+
 	sigData, err := base64.URLEncoding.DecodeString(connSignature.SignedData)
 	if err != nil {
 		return nil, fmt.Errorf("decode signature data: %w", err)
